@@ -518,7 +518,7 @@ func init() {
 			if build == "race" {
 				return 20000
 			}
-			return vf.Tiered(tier, 600, 400000)
+			return vf.Tiered(tier, 3000, 400000)
 		},
 		Builds: func(tier string) []string {
 			if tier == "thorough" {
